@@ -16,6 +16,7 @@ assert len(SIG_ALPHABET) == 35 and len(set(SIG_ALPHABET)) == 35
 # characters of the alphabet that the grammar also reads as an alteration-display suffix after an accidental
 DISPLAY_LIKE = set('XijZ')
 REST_SIGS = list(";(){}'X")
+TAIL_MARKS = ('.', 'q')  # duration-like marks written after the pitch
 UNIT_SIGS = {'yy'}     # decorations of more than one character (rests only)
 DISPLAY_SUFFIXES = ['x', 'X', 'i', 'I', 'j', 'Z', 'y', 'yy', 'Y', 'YY']
 
@@ -85,8 +86,8 @@ class Note:
         if self.rest:
             pre, post = [], []
             for s in self.sigs:
-                if len(s) > 1:           # a multi-character unit ('yy'): once, in either place, never repeated
-                    (pre if rng.random() < 0.2 else post).append(s)
+                if len(s) > 1 or s.lower() in LETTERS:     # a unit ('yy', a position 'cc' / 'G'): once, never repeated
+                    (pre if (s == 'yy' and rng.random() < 0.2) else post).append(s)
                     continue
                 reps = 1 if rng.random() > hostile * 0.4 else rng.choice([2, 3])
                 for _ in range(reps):
@@ -96,6 +97,9 @@ class Note:
             return ''.join(pre) + dur_txt + 'r' + ''.join(post)
         slots = [[], [], [], []]  # before duration, duration..pitch, pitch..accidental, after accidental
         for s in self.sigs:
+            if s in TAIL_MARKS:
+                slots[3].append(s)      # once, after the accidental (anywhere earlier it would be a duration mark)
+                continue
             n_places = 1 if rng.random() > hostile * 0.35 else 2
             for _ in range(n_places):
                 if rng.random() < hostile:
@@ -182,6 +186,13 @@ def rand_note(rng, *, hostile=0.5, allow_grace=True, allow_acc=True, allow_displ
         if has_acc:
             pool = [c for c in SIG_ALPHABET if c not in DISPLAY_LIKE]
         sigs = tuple(sorted(rng.sample(pool, min(k, len(pool)))))
+    # rarely used spellings: an augmentation dot or a grace mark written AFTER the pitch (4c., 8eq).  kernpy files them under the
+    # note's decorations ('.' / 'q' sort before the letters); they are written once, after the accidental.
+    if dur is not None and allow_sigs and chord_has_acc is None:
+        if dots == 0 and rng.random() < 0.04:
+            sigs = tuple(sorted(set(sigs) | {'.'}))
+        if allow_grace and not grace and rng.random() < 0.03:
+            sigs = tuple(sorted(set(sigs) | {'q'}))
     return Note(dur=dur, dots=dots, grace=grace, letters=rand_letters(rng), acc=acc, sigs=sigs, fixed_pre=fixed_pre)
 
 
@@ -194,6 +205,11 @@ def rand_rest(rng, *, hostile=0.5, allow_sigs=True) -> Note:
     if allow_sigs and rng.random() < 0.12:
         # an invisible rest (ryy): 'yy' is ONE decoration of two characters; written once, after the r
         sigs = tuple(sorted(set(sigs) | {'yy'}))
+    if allow_sigs and rng.random() < 0.08:
+        # a rest with a vertical position (4rcc, 8rG): the position is ONE decoration, written after the r
+        l = rng.choice(LETTERS)
+        pos = (l.upper() if rng.random() < 0.4 else l) * rng.choice([1, 1, 2, 2, 3])
+        sigs = tuple(sorted(set(sigs) | {pos}))
     return Note(dur=dur, dots=dots, letters='r', rest=True, sigs=sigs)
 
 
